@@ -35,6 +35,10 @@ type adminCluster struct {
 	polls      int32
 	onPoll     func()
 	script     []string // answers to the polls, in order: r f x n (then RUNNING)
+	snapshots  []*pb.SnapshotDescription
+	tables     []*pb.TableName
+	balancer   bool
+	status     *pb.ClusterStatus
 	mu         sync.Mutex
 	pollCtxs   []context.Context
 }
@@ -76,11 +80,15 @@ func (c *adminConn) QueueRPC(call hrpc.Call) {
 		case "RestoreSnapshot":
 			msg = &pb.RestoreSnapshotResponse{}
 		case "GetCompletedSnapshots":
-			msg = &pb.GetCompletedSnapshotsResponse{}
+			msg = &pb.GetCompletedSnapshotsResponse{Snapshots: c.a.snapshots}
 		case "GetTableNames":
-			msg = &pb.GetTableNamesResponse{}
+			msg = &pb.GetTableNamesResponse{TableNames: c.a.tables}
 		case "SetBalancerRunning":
-			msg = &pb.SetBalancerRunningResponse{PrevBalanceValue: proto.Bool(true)}
+			msg = &pb.SetBalancerRunningResponse{PrevBalanceValue: proto.Bool(c.a.balancer)}
+		case "GetClusterStatus":
+			msg = &pb.GetClusterStatusResponse{ClusterStatus: c.a.status}
+		case "MoveRegion":
+			msg = &pb.MoveRegionResponse{}
 		case "IsSnapshotDone":
 			// the completion check of CreateSnapshot: a poll like the procedure-state one
 			atomic.AddInt32(&c.a.polls, 1)
@@ -628,4 +636,59 @@ func adminScriptCase(rng *RNG) string {
 		sl = "-"
 	}
 	return fmt.Sprintf("c17 admin %s %s %s %d %s", api, strings.Join(a.script, ","), res, atomic.LoadInt32(&a.polls), sl)
+}
+
+// adminResultsScenario (C02, at the API of the admin client): what ListSnapshots, ListTableNames,
+// SetBalancer and ClusterStatus hand to the caller is what the master answered.
+func adminResultsScenario(rng *RNG) string {
+	setSleepOverride(fastBackoff)
+	defer setSleepOverride(nil)
+	a := &adminCluster{balancer: rng.Bool()}
+	for i, n := 0, rng.Intn(4); i < n; i++ {
+		a.snapshots = append(a.snapshots, &pb.SnapshotDescription{Name: proto.String(fmt.Sprintf("s%d-%d", i, rng.Intn(1000))),
+			Table: proto.String(fmt.Sprintf("t%d", rng.Intn(10))), Version: proto.Int32(int32(rng.Intn(3))), CreationTime: proto.Int64(int64(rng.Intn(1 << 30)))})
+	}
+	for i, n := 0, rng.Intn(5); i < n; i++ {
+		a.tables = append(a.tables, &pb.TableName{Namespace: []byte([]string{"default", "ns"}[rng.Intn(2)]), Qualifier: []byte(fmt.Sprintf("t%d-%d", i, rng.Intn(1000)))})
+	}
+	a.status = &pb.ClusterStatus{ClusterId: &pb.ClusterId{ClusterId: proto.String(fmt.Sprintf("cluster-%d", rng.Intn(1000)))},
+		BalancerOn: proto.Bool(rng.Bool())}
+	wrap := func(real hrpc.RegionClient) hrpc.RegionClient { return &adminConn{a} }
+	v := gohbase.VerifNewClient(a, true, wrap, gohbase.Logger(discardLogger))
+	defer v.Client().Close()
+	ctx, cancel := context.WithTimeout(context.Background(), 5*time.Second)
+	defer cancel()
+	snaps, err := v.C.ListSnapshots(hrpc.NewListSnapshots(ctx))
+	if err != nil || len(snaps) != len(a.snapshots) {
+		return "sim check admin-results snapshots-differ"
+	}
+	for i := range snaps {
+		if !proto.Equal(snaps[i], a.snapshots[i]) {
+			return "sim check admin-results snapshots-differ"
+		}
+	}
+	l, _ := hrpc.NewListTableNames(ctx)
+	names, err := v.C.ListTableNames(l)
+	if err != nil || len(names) != len(a.tables) {
+		return "sim check admin-results table-names-differ"
+	}
+	for i := range names {
+		if !proto.Equal(names[i], a.tables[i]) {
+			return "sim check admin-results table-names-differ"
+		}
+	}
+	b, _ := hrpc.NewSetBalancer(ctx, !a.balancer)
+	prev, err := v.C.SetBalancer(b)
+	if err != nil || prev != a.balancer {
+		return "sim check admin-results balancer-previous-state-differs"
+	}
+	st, err := v.C.ClusterStatus()
+	if err != nil || !proto.Equal(st, a.status) {
+		return "sim check admin-results cluster-status-differs"
+	}
+	mv, _ := hrpc.NewMoveRegion(ctx, []byte("0123456789abcdef0123456789abcdef"))
+	if err := v.C.MoveRegion(mv); err != nil {
+		return "sim check admin-results move-region-failed"
+	}
+	return "sim check admin-results ok"
 }
